@@ -41,6 +41,24 @@ def load(modname):
     return mod
 
 
+def raised_in_library(exc):
+    """Did this exception come out of the code under test (rather than out of the harness)?  The traceback is walked
+    from the innermost frame outwards, frames of the standard library / site-packages are skipped, and the first frame
+    that belongs either to the tree under test or to /verif decides."""
+    rd = repo_dir() + os.sep
+    frames = []
+    tb = exc.__traceback__
+    while tb is not None:
+        frames.append(os.path.realpath(tb.tb_frame.f_code.co_filename))
+        tb = tb.tb_next
+    for fn in reversed(frames):
+        if fn.startswith(rd):
+            return True
+        if fn.startswith(VERIF_DIR + os.sep):
+            return False
+    return False
+
+
 class StepBudget(BaseException):
     """Raised inside the library code of a case that went on for millions of loop iterations / calls after its
     (generous) wall-clock allowance had already passed: it does not terminate."""
